@@ -51,7 +51,7 @@ PROPS = {
                   explanation="Debug/Statistics/Memoize twins of every case are run on the real generated parser and compared; Lean theorems cover the memo-table discipline only (the full memo-soundness statement is false for the unchanged code, finding D7)"),
     "C07": dict(module="PigeonVerif.Properties.C07", run=mid_check.run_c07, differs=mid_check.differs_rt, level="other"),
     "C08": h1prop("PigeonVerif.Properties.C08", P(["val", "pos", "errs", "stores", "trace_ctx", "trace_stores"]),
-                  [("lr", 12000, 400000)], twins=twins_c08, twin_rel=rel_c08, level="other", mid_leaders=(3000, 40000), lrwf=True,
+                  [("lr", 12000, 400000)], twins=twins_c08, twin_rel=rel_c08, level="other", mid_leaders=(3000, 40000), lrwf=True, regen=True,
                   variants=[v for v in core.ALL_VARIANTS if v[5] == "1"],
                   explanation="every generated left-recursive case is run on the real generated parser (all 8 LeftRecursion template variants, Memoize on/off) and on the Lean model (full result incl. values, errors, stores, block trace), and — for direct left recursion without predicates — on the plain parser of its iterative twin grammar, which must match the same prefix"),
     "C09": dict(module="PigeonVerif.Properties.C09", run=tool_check.run_c09, level="translation_validation",
